@@ -54,8 +54,8 @@ func keys() []kp {
 func mkTxn(k kp, n int) (coin.Transaction, coin.UxArray) {
 	ux := coin.UxOut{Head: coin.UxHead{Time: 100, BkSeq: 2}, Body: coin.UxBody{SrcTransaction: cipher.SumSHA256([]byte{byte(n)}), Address: k.addr, Coins: 10e6, Hours: 1000}}
 	var t coin.Transaction
-	t.PushInput(ux.Hash())                       //nolint:errcheck
-	t.PushOutput(k.addr, 4e6, 100)               //nolint:errcheck
+	t.PushInput(ux.Hash())                             //nolint:errcheck
+	t.PushOutput(k.addr, 4e6, 100)                     //nolint:errcheck
 	t.PushOutput(cipher.Address{Version: 0}, 6e6, 200) //nolint:errcheck
 	t.SignInputs([]cipher.SecKey{k.sec})
 	t.UpdateHeader() //nolint:errcheck
@@ -84,13 +84,13 @@ func main() {
 		}
 		par(100, func(g, i int) {
 			x := sgs[g]
-			cipher.VerifyPubKeySignedHash(ks[g].pub, x.sig, x.h)      //nolint:errcheck
-			cipher.VerifyAddressSignedHash(ks[g].addr, x.sig, x.h)    //nolint:errcheck
-			cipher.VerifySignatureRecoverPubKey(x.mirror, x.h)        //nolint:errcheck
-			cipher.PubKeyFromSig(x.sig, x.h)                          //nolint:errcheck
+			cipher.VerifyPubKeySignedHash(ks[g].pub, x.sig, x.h)                //nolint:errcheck
+			cipher.VerifyAddressSignedHash(ks[g].addr, x.sig, x.h)              //nolint:errcheck
+			cipher.VerifySignatureRecoverPubKey(x.mirror, x.h)                  //nolint:errcheck
+			cipher.PubKeyFromSig(x.sig, x.h)                                    //nolint:errcheck
 			cipher.VerifyPubKeySignedHash(ks[(g+1)%goroutines].pub, x.sig, x.h) //nolint:errcheck
 			if i%20 == 0 {
-				cipher.SignHash(x.h, ks[g].sec) //nolint:errcheck
+				cipher.SignHash(x.h, ks[g].sec)                  //nolint:errcheck
 				cipher.ECDH(ks[(g+1)%goroutines].pub, ks[g].sec) //nolint:errcheck
 				cipher.PubKeyFromSecKey(ks[g].sec)               //nolint:errcheck
 			}
@@ -105,10 +105,10 @@ func main() {
 			b, _ := t.Serialize()
 			coin.DeserializeTransaction(b) //nolint:errcheck
 			head := coin.BlockHeader{Time: 5000, BkSeq: 3}
-			transaction.VerifySingleTxnHardConstraints(t, head, uxs, transaction.TxnSigned)                   //nolint:errcheck
-			transaction.VerifySingleTxnSoftConstraints(t, head.Time, uxs, dist, params.UserVerifyTxn)         //nolint:errcheck
-			fee.TransactionFee(&t, head.Time, uxs)                                                            //nolint:errcheck
-			uxs[0].CoinHours(uint64(5000 + g))                                                                 //nolint:errcheck
+			transaction.VerifySingleTxnHardConstraints(t, head, uxs, transaction.TxnSigned)           //nolint:errcheck
+			transaction.VerifySingleTxnSoftConstraints(t, head.Time, uxs, dist, params.UserVerifyTxn) //nolint:errcheck
+			fee.TransactionFee(&t, head.Time, uxs)                                                    //nolint:errcheck
+			uxs[0].CoinHours(uint64(5000 + g))                                                        //nolint:errcheck
 		})
 	case "text": // C15, C30, C31
 		par(400, func(g, i int) {
@@ -135,7 +135,7 @@ func main() {
 			}
 			c, err := k.NewPrivateChildKey(uint32(g))
 			if err == nil {
-				c.PublicKey().NewPublicChildKey(uint32(i)) //nolint:errcheck
+				c.PublicKey().NewPublicChildKey(uint32(i))     //nolint:errcheck
 				bip32.DeserializeEncodedPrivateKey(c.String()) //nolint:errcheck
 			}
 		})
